@@ -27,7 +27,8 @@
 From Coq Require Import String.
 From MW Require Import Model.Base Model.Datum Model.VmTypes Model.Heap Model.VmBase Model.Compile Model.Vm
   Model.Builtins Model.WireVm Proofs.CompileProofs Proofs.RunProofs Proofs.CompileCorrect
-  Proofs.QuoteHeapProofs Proofs.TailProofs Proofs.FrameSteps Proofs.CellFuelProofs Proofs.CompileCorrect2.
+  Proofs.QuoteHeapProofs Proofs.TailProofs Proofs.FrameSteps Proofs.CellFuelProofs Proofs.CompileCorrect2
+  Proofs.FreeSymProofs.
 Open Scope N_scope.
 
 (* operands strictly left to right, each compiled as a non-tail expression and
@@ -260,7 +261,8 @@ Proof. exact ex_app_ref. Qed.
      e ::= ... | ((lambda (x1 ... xn) body) e1 ... en)      (what `let` expands to)
    body again in the fragment; a variable is a parameter of the innermost enclosing lambda
    ([pindex]) or a global; define / set! on globals only; nothing captured ([nocapture]: the
-   compiler's free-symbol analysis of the lambda finds no parameter of the enclosing lambda).
+   compiler's free-symbol analysis of the lambda finds no parameter of the enclosing lambda;
+   implied by the syntactic [swf_expr2], C01_wf2_syntactic below).
    As marwood compiles it: a parameter is a slot of the activation ENVIRONMENT (every formal
    is an (sym, Argument i) entry of the environment map), read by MOV (lexical slot i); the
    lambda expression is MOV_IMMEDIATE + CLOSURE; the call is CALL, or TCALL in tail position.
@@ -285,6 +287,24 @@ Theorem C01_fragment2_correct :
       ok_n ob m lp (len (fwd l) + len code) r rho' \/ (tail = true /\ ok_t ob m r rho').
 Proof. exact compile_correct2. Qed.
 Print Assumptions C01_fragment2_correct.
+
+(* [wf_expr2] states "nothing is captured" through the compiler's analysis [free_symbols]; it
+   follows from the purely syntactic [swf_expr2]: same conditions, with [nocapture] replaced by
+   "every variable (or set! target) mentioned anywhere in the body of a lambda is one of ITS
+   parameters or is not a parameter of the enclosing lambda".  Behind it: the analysis [ffs]
+   succeeds on the fragment and reports only variables that occur in the expression and are
+   not bound by the environment it is given (Proofs/FreeSymProofs.v). *)
+Theorem C01_wf2_syntactic : forall e ps, swf_expr2 e ps -> wf_expr2 e ps.
+Proof. exact swf_wf. Qed.
+Print Assumptions C01_wf2_syntactic.
+Theorem C01_free_symbols_sound : forall e ps, swf_expr2 e ps ->
+  forall f env fs0, (cell_size (cell_of2 e) < f)%nat ->
+  exists fs1, ffs f (cell_of2 e) env (map CSym fs0) = Ok (map CSym (fs0 ++ fs1)) /\
+    forall x, In x fs1 -> In x (allvars e) /\ cell_in_syms (CSym x) env = false.
+Proof. exact ffs_spec_swf. Qed.
+Print Assumptions C01_free_symbols_sound.
+Example C01_fragment2_examples_syntactic : swf_expr2 ex2_e [] /\ swf_expr2 ex3_e [].
+Proof. exact (conj ex2_swf ex3_swf). Qed.
 
 (* the two outcomes, spelled out *)
 Theorem C01_ok_n_unfold : forall ob m lp q r rho', ok_n ob m lp q r rho' <->
